@@ -681,6 +681,7 @@ class Explorer:
         self.notes = {}
         self.results = []  # per path obligation outcomes
         self.tie_choices = 0
+        self.named_choices = []
 
     # -- variables ---------------------------------------------------------
     def int(self, name, lo=None, hi=None):
@@ -996,6 +997,8 @@ class Explorer:
 
     def _model_dict(self, m):
         out = {}
+        if getattr(self, "named_choices", None):
+            out["__choices__"] = list(self.named_choices)     # harness-level nondeterminism, replayed natively
         for name, v in self.vars.items():
             val = m.eval(v, model_completion=True)
             if z3.is_int_value(val):
